@@ -196,8 +196,11 @@ def check_C16(ex, sub=None):
             if rho < prev:
                 out.append(V(P, "monotone", "penalty decreased from %r to %r at trial %d" % (prev, rho, t), sub, ctx))
                 break
-            if rho != prev and not fin[t - 1]:
-                out.append(V(P, "changed-without-accept", "penalty changed %r -> %r although step %d was not accepted" % (prev, rho, t - 1), sub, ctx))
+            if pol == "DualNorm" and rho != prev and not fin[t - 1]:
+                # "raised by at most a factor of ten per accepted step": no accepted step, no raise.
+                # (Only stated for the dual-norm policy; other policies may legitimately adopt a
+                # raised penalty after a vetoed step.)
+                out.append(V(P, "dualnorm-raise-without-accept", "penalty changed %r -> %r although step %d was not accepted" % (prev, rho, t - 1), sub, ctx))
                 break
             if pol == "DualNorm" and rho > 10.0 * prev * (1 + 4 * EPS):
                 out.append(V(P, "dualnorm-growth", "penalty grew %r -> %r (more than tenfold) at trial %d" % (prev, rho, t), sub, ctx))
